@@ -147,6 +147,7 @@ def gen_case(rng, big):
         "u": rng.uniform(20.0, 400.0),
         "swap_seed": rng.randrange(2 ** 31),
         "rbins_as_list": rng.random() < 0.3,
+        "layout": ("CCCCC" if rng.random() < 0.65 else "".join(rng.choice("CFTS") for _ in range(5))),
         "meta": {"flux_mode": fmode, "bins_mode": bmode, "zero_velocity": zero_v},
     }
 
@@ -204,6 +205,20 @@ def arr(m):
     a = np.array(m, dtype=float)
     if a.ndim == 1:      # [[]] -> shape (1, 0)
         a = a.reshape((len(m), 0))
+    return a
+
+
+def relayout(a, code):
+    """the same map (same shape, same a[i, j]) in another memory layout: Fortran-ordered copy, transposed view of a
+    C-ordered array (a FITS image read the other way round), every second element of a larger array"""
+    if code == "F":
+        return np.asfortranarray(a)
+    if code == "T":
+        return np.ascontiguousarray(a.T).T
+    if code == "S" and a.size:
+        big = np.full((a.shape[0] * 2, a.shape[1] * 2), np.nan)
+        big[::2, ::2] = a
+        return big[::2, ::2]
     return a
 
 
@@ -269,7 +284,7 @@ def oracle(c):
     returns (list of (signature, text), observations for the correspondence, info)"""
     import random
     fails = []
-    D, WD, V, WV, F = (arr(c[k]) for k in ("disp", "wdisp", "vel", "wvel", "flux"))
+    D, WD, V, WV, F = (relayout(arr(c[k]), code) for k, code in zip(("disp", "wdisp", "vel", "wvel", "flux"), c.get("layout") or "CCCCC"))
     s = c["scale"]
     rb = edges(c)
     cf, cw, u = c["cf"], c["cw"], c["u"]
